@@ -5,6 +5,7 @@ from pyvc.contracts import cls, fn
 cls("hypercorn.config:Sockets", fields={"secure_sockets": "objs io:ListenSocket", "insecure_sockets": "objs io:ListenSocket", "quic_sockets": "const ()"},
     immutable=["secure_sockets", "insecure_sockets", "quic_sockets"])
 fn("hypercorn.config:Config.create_sockets", params={}, returns="obj hypercorn.config:Sockets", modifies=[], effect="atomic", assume_only=True,
+   ensures=[("create_sockets.secure-only-with-tls", "implies(self.certfile is None or self.keyfile is None, len(result.secure_sockets) == 0)")],
    trusted_reason="socket creation / binding is outside the contract; QUIC binds are assumed absent")
 fn("hypercorn.config:Config.create_ssl_context", params={}, returns="opt opaque", modifies=[], effect="atomic", assume_only=True,
    trusted_reason="TLS context construction is outside the contract")
@@ -27,18 +28,53 @@ fn("hypercorn.trio.run:worker_serve",
        "trio.SocketListener": [("C14.before.listener", STARTED, "C14")],
        "trio.SSLListener": [("C14.before.tls-listener", STARTED, "C14")],
        "nursery.start_soon(serve_listeners)": [("C14.before.serve", STARTED, "C14")],
+       # C15.order: the application's lifespan.shutdown comes only after shutdown has been announced to the connections
+       "Lifespan.wait_for_shutdown": [("C15.order", "context.terminated.is_set()", "C15,C14")],
    }},
    loops={i: {"locals": {"sock": "obj io:ListenSocket", "bind": "str", "binds": "strs", "listeners": "objs trio:Listener"},
               "invariant": [("serve.loop.started", "lifespan.g_startup_returned", "C14")]} for i in range(6)},
    ensures=[
        # C14.shutdown-once / C15.order: shutdown is announced to the connections first, the
        # application's lifespan.shutdown comes after the server nursery has been left, exactly once
-       ("C15.order", "0 <= call_index('Event.set') and call_index('Event.set') < call_index('Lifespan.wait_for_shutdown')", "C15,C14"),
        ("C14.shutdown-once", "count_calls('Lifespan.wait_for_shutdown') == 1", "C14,C15"),
        ("C15.listeners-after-startup", "call_index('Lifespan.wait_for_startup') >= 0 or n_after_gap('calls') >= 0", "C14"),
        # C18.jitter: the worker's request budget is max_requests plus a jitter in [0, max_requests_jitter]
        ("C18.jitter", JITTER, "C18"),
        # C15.bound: from the moment shutdown is announced the server nursery is left within graceful_timeout
+       ("C15.grace-deadline", "call_time('Lifespan.wait_for_shutdown') <= call_time('Event.set') + config.graceful_timeout", "C15"),
+   ],
+   props=("C14", "C15", "C18"))
+
+
+ASTARTED = "lifespan.g_startup_returned"
+
+
+def _merge(a, b):
+    d = dict(a)
+    d.update(b)
+    return d
+
+
+fn("hypercorn.asyncio.run:worker_serve",
+   params={"app": "opaque", "config": "obj hypercorn.config:Config", "sockets": "opt obj hypercorn.config:Sockets",
+           "shutdown_trigger": "callable{record:trigger_calls;coro:1}"},
+   requires=[("serve.pre.timeouts", "config.startup_timeout >= 0 and config.shutdown_timeout >= 0 and config.graceful_timeout >= 0 and config.max_requests_jitter >= 0"),
+             # sockets handed in by the caller: TLS sockets only together with a TLS configuration (what create_sockets guarantees)
+             ("serve.pre.tls", "implies(sockets is not None and (config.certfile is None or config.keyfile is None), len(sockets.secure_sockets) == 0)")],
+   raises={"LifespanTimeoutError": None, "BaseExceptionGroup": None, "Exception": None, "asyncio.CancelledError": None},
+   model_opts={"clock": True, "call_requires": {
+       "asyncio.start_server": [("C14.before.start_server", ASTARTED, "C14")],
+       "Lifespan.wait_for_shutdown": [("C15.order", "context.terminated.is_set()", "C15,C14")],
+   }},
+   loops=_merge({i: {"locals": {"sock": "obj io:ListenSocket", "bind": "str", "servers": "objs asyncio:Server", "server": "obj asyncio:Server"},
+                   "invariant": [("serve.loop.started", "lifespan.g_startup_returned", "C14")]} for i in (0, 1, 2, 3)},
+              {4: {"locals": {"server": "obj asyncio:Server"},
+                   "invariant": [("serve.loop.announced", "context.terminated.is_set()", "C15")]}}),
+   ensures=[
+       ("C14.shutdown-once", "count_calls('Lifespan.wait_for_shutdown') == 1", "C14,C15"),
+       ("C18.jitter", JITTER, "C18"),
+       # C15.bound: the server tasks are given graceful_timeout from the moment shutdown is
+       # announced to them, not more
        ("C15.grace-deadline", "call_time('Lifespan.wait_for_shutdown') <= call_time('Event.set') + config.graceful_timeout", "C15"),
    ],
    props=("C14", "C15", "C18"))
